@@ -62,6 +62,7 @@ FUNCTIONS = [
     ("linkhash.c", "lh_table_delete_entry"),
     ("json_object.c", "json_object_get_boolean"),
     ("json_object.c", "json_object_get_string_len"),
+    ("json_object.c", "_json_object_get_string_len"),
 ]
 
 
